@@ -735,12 +735,14 @@ class ServiceInfo(RecordUpdateListener):
         """
         cache = zc.cache
         original_server_key = self.server_key
-        cached_srv_record = cache.get_by_details(self._name, _TYPE_SRV, _CLASS_IN)
-        if cached_srv_record:
-            self._process_record_threadsafe(zc, cached_srv_record, now)
-        cached_txt_record = cache.get_by_details(self._name, _TYPE_TXT, _CLASS_IN)
-        if cached_txt_record:
-            self._process_record_threadsafe(zc, cached_txt_record, now)
+        # Use the newest SRV and TXT record that has not expired: an expired
+        # record that has not been purged from the cache yet must not hide
+        # a valid one.
+        for type_ in (_TYPE_SRV, _TYPE_TXT):
+            for record in reversed(cache.get_all_by_details(self._name, type_, _CLASS_IN)):
+                if not record.is_expired(now):
+                    self._process_record_threadsafe(zc, record, now)
+                    break
         if original_server_key == self.server_key:
             # If there is a srv which changes the server_key,
             # A and AAAA will already be loaded from the cache
